@@ -29,6 +29,11 @@ CLAIMED = {
         note="Reals in the theorems; 'enclosed volume' is the signed-volume formula (its meaning as a volume rests on the surface being closed and embedded); that the flood fill yields a globally consistent orientation is validated by the correspondence and the oracle, not proved; gte::SymmetricEigensolver3x3 (longest axis) is not modelled: judged by the rotation oracle on elongated cells only; the absolute-coordinate formulas lose (distance/size)^3*eps in relative accuracy, tolerances are scaled accordingly.",
         technique="Coq proof over R of a hand-written Gallina model + bit-exact differential correspondence + exact rational and metamorphic oracle",
         design="§6 C12"),
+    "C02": dict(
+        text="Theorems over R about the Gallina transcription of the force routines of cell.cpp (Forces.v): on every closed oriented surface with fresh cached normals the pressure forces have zero net force and zero net torque and the force on each node equals P times the exact derivative of the signed volume with respect to that node (the volume is affine in each node); tension/elasticity forces sum to zero for ANY cached normals and have zero torque for fresh ones, and the per-node vector is the Coquelicot derivative of the triangle area; the three gradients of an angle sum to zero, hence zero net angle-regularisation force; the four forces of every bending hinge sum to zero (cotangent identity through acos/tan, Rodrigues rotations at +-pi/2); the whole force field is translation invariant. The same Gallina term at binary64 (libm from the shared glibc) is compared bit-for-bit with the real routines, one term at a time and through apply_internal_forces; net force/torque, exact rational volume derivative, finite-difference area derivative and rigid-motion equivariance judge the implementation's per-node forces.",
+        note="Reals in the theorems (pi = PI, exact trigonometry; Coq's total division covers the right-angle cotangent); not proved: zero net torque of the bending and angle-regularisation terms and rotation equivariance (judged by the oracle on every case); placements within 1e3 cell sizes of the origin (the absolute-coordinate signed volume used by the orientation repair loses (distance/size)^3*eps).",
+        technique="Coq proof over R (closed-surface half-edge cancellation, Coquelicot derivative, trigonometric identities) of a hand-written Gallina model + bit-exact differential correspondence + momentum/energy-derivative oracle",
+        design="§6 C02"),
 }
 
 PENDING_REASON = "not claimed yet: model, theorems and correspondence for this property are still being built (see DESIGN.md §9 staging); nothing is asserted about it"
